@@ -760,18 +760,6 @@ func pngIDAT(file []byte) ([]byte, int, int, error) {
 
 // ---------------------------------------------------------------- CCITTFax against x/image/ccitt
 
-func ccittClass(f pdf.FilterCCITTFax) string {
-	switch {
-	case f.EncodedByteAlign && (!f.EndOfLine || f.K < 0):
-		return "ccitt-S3-EncodedByteAlign"
-	case f.K > 0 && f.Rows == 0 && !f.IgnoreEndOfBlock:
-		return "ccitt-S2-K-positive-no-Rows"
-	case f.IgnoreEndOfBlock:
-		return "ccitt-S1-EndOfBlock-false"
-	}
-	return ""
-}
-
 func (h *H) ccittImage(cols, rows int) []byte {
 	r := h.e.Rand
 	bpr := (cols + 7) / 8
@@ -828,7 +816,7 @@ func (h *H) ccittImage(cols, rows int) []byte {
 
 func (h *H) ccittCases() {
 	e := h.e
-	colsList := []int{1, 5, 8, 13, 40, 61, 64, 65, 128, 130, 200, 256, 1728}
+	colsList := []int{1, 2, 3, 5, 7, 8, 9, 13, 40, 61, 63, 64, 65, 128, 130, 200, 256, 1728, 1792, 2560, 2561, 2700, 5200}
 	for _, K := range []int{-1, 0} {
 		for _, eol := range []bool{false, true} {
 			for _, align := range []bool{false, true} {
@@ -849,9 +837,60 @@ func (h *H) ccittCases() {
 	}
 }
 
+// every run length 0..2700 of either colour once: each terminating and make-up code of the tables
+// is read by x/image/ccitt (which has its own tables) and by the Coq model
+func (h *H) ccittRunSweep() {
+	e := h.e
+	step := e.Pick(1, 1)
+	for n := 0; n <= 2700; n += step {
+		for _, black := range []bool{false, true} {
+			cols := n + 6
+			bpr := (cols + 7) / 8
+			data := make([]byte, bpr*2)
+			// BlackIs1=false: white pixels are 1
+			for row := 0; row < 2; row++ {
+				for x := 0; x < cols; x++ {
+					white := true
+					if black {
+						white = x < 1 || x >= 1+n
+					} else {
+						white = x < n || x >= n+3 && x < n+5
+						if row == 1 {
+							white = x < n
+						}
+					}
+					if white {
+						data[row*bpr+x/8] |= 0x80 >> (x % 8)
+					}
+				}
+			}
+			h.ccittCase(pdf.FilterCCITTFax{K: 0, EndOfLine: true, Columns: cols}, data, cols, 2)
+		}
+	}
+}
+
 func (h *H) ccittCase(f pdf.FilterCCITTFax, data []byte, cols, rows int) {
 	e := h.e
 	label := fmt.Sprintf("K=%d EndOfLine=%v EncodedByteAlign=%v EndOfBlock=%v Rows=%d Columns=%d BlackIs1=%v", f.K, f.EndOfLine, f.EncodedByteAlign, !f.IgnoreEndOfBlock, f.Rows, cols, f.BlackIs1)
+	if f.K == 0 && (cols <= 300 || e.Rand.IntN(4) == 0) {
+		// the Coq model of T.4 one-dimensional coding as a second referee (both directions)
+		if enc, err := libEncode(f, pdf.V1_7, data); err == nil {
+			geoMax := max(1, min(1<<16, (128<<20)/cols))
+			maxRows := geoMax
+			if f.Rows > 0 && f.Rows < geoMax {
+				maxRows = f.Rows
+			}
+			b := func(v bool) int {
+				if v {
+					return 1
+				}
+				return 0
+			}
+			spec := fmt.Sprintf("g3:%d:%d:%d:%d:%d:%d", cols, b(f.EndOfLine), b(f.EncodedByteAlign), b(f.BlackIs1), b(f.IgnoreEndOfBlock), maxRows)
+			h.modelLines(spec, enc, data, nil, true)
+			e.Count(true, spec+common.Hex(data), "ccitt-model-referee")
+		}
+	}
 	if f.K == 0 && !f.EndOfLine {
 		// T.4 one-dimensional coding without EOL codes is a PDF-only variant; x/image/ccitt implements T.4 proper
 		e.Count(false, "", "ccitt-no-referee:G3-without-EOL")
@@ -875,19 +914,12 @@ func (h *H) ccittCase(f pdf.FilterCCITTFax, data []byte, cols, rows int) {
 	rd := ccitt.NewReader(bytes.NewReader(enc), ccitt.MSB, sf, cols, rows, &ccitt.Options{Invert: f.BlackIs1, Align: f.EncodedByteAlign})
 	got, err := io.ReadAll(rd)
 	ok := err == nil && bytes.Equal(got, data)
-	class := ccittClass(f)
 	if !ok {
-		sig := class
-		if sig == "" {
-			sig = fmt.Sprintf("interop-ccitt-K%d-eol%v-align%v-eob%v", f.K, f.EndOfLine, f.EncodedByteAlign, !f.IgnoreEndOfBlock)
-		}
+		sig := fmt.Sprintf("interop-ccitt-K%d-eol%v-align%v-eob%v", f.K, f.EndOfLine, f.EncodedByteAlign, !f.IgnoreEndOfBlock)
 		h.fail(sig, fmt.Sprintf("CCITTFax %s: x/image/ccitt does not read the library's encoding back (%d rows; %d bytes for %d, err=%v)", label, rows, len(got), len(data), err),
 			map[string]any{"filter": fmt.Sprintf("%#v", f), "cols": cols, "rows": rows, "data": common.Hex(data), "enc": common.Hex(enc)})
 	}
-	if class == "" {
-		class = "ccitt-required"
-	}
-	e.Count(true, label+common.Hex(data), fmt.Sprintf("%s:%s", class, map[bool]string{true: "ok", false: "fail"}[ok]))
+	e.Count(true, label+common.Hex(data), fmt.Sprintf("ccitt-ximage:%s", map[bool]string{true: "ok", false: "fail"}[ok]))
 }
 
 // ---------------------------------------------------------------- phase 2: the library decodes what the model encoded
@@ -906,6 +938,12 @@ func filterFor(spec string) (pdf.Filter, *predict.Params) {
 		return pdf.FilterLZW{OffByOne: true}, nil
 	}
 	parts := strings.Split(spec, ":")
+	if len(parts) == 7 && parts[0] == "g3" {
+		cols, _ := strconv.Atoi(parts[1])
+		rows, _ := strconv.Atoi(parts[6])
+		return pdf.FilterCCITTFax{K: 0, Columns: cols, EndOfLine: parts[2] == "1", EncodedByteAlign: parts[3] == "1",
+			BlackIs1: parts[4] == "1", IgnoreEndOfBlock: parts[5] == "1", Rows: rows}, nil
+	}
 	if len(parts) == 4 {
 		c, _ := strconv.Atoi(parts[1])
 		b, _ := strconv.Atoi(parts[2])
@@ -1003,6 +1041,7 @@ func main() {
 	h.predictors()
 	h.pngInterop()
 	h.ccittCases()
+	h.ccittRunSweep()
 	e.Finish("one evaluation = one (codec, direction, input); non-trivial when the input is not empty; distinct by codec, direction and content",
 		map[string]any{})
 }
